@@ -25,7 +25,10 @@ Definition pobs_of (p : pdoc) : pobs := PO (cur p) (cur_del p) (cur_body p).
 
 (* one harness step: the model operations it stands for, optionally the (applied, rejected-as-conflict)
    counts the replication reported, and what the admin side of both databases shows afterwards *)
-Inductive stepc := St (ops : list op) (counts : option (N * N)) (after : list (N * pobs * pobs)).
+Inductive stepc :=
+| St (ops : list op) (counts : option (N * N)) (after : list (N * pobs * pobs))
+(* a step made while a continuous replication runs (see VStS below) *)
+| StS (ops : list op) (fresh both : bool) (docs : list N) (after : list (N * pobs * pobs)).
 
 (* ---- version-vector (v4) scenarios: the model of VV.v re-run on the steps the real replicator ran ---- *)
 (* what the admin side shows of one document: current version (source, value), tombstone flag, body *)
@@ -41,7 +44,21 @@ Definition vpobs_eqb (a b : vpobs) : bool :=
 
 (* one harness step: the model operations it stands for, optionally the counts of a one-shot run
    (documents stored by the receiver, documents refused with 409), and what both databases show afterwards *)
-Inductive vstepc := VSt (ops : list vop) (counts : option (N * N)) (after : list (N * vpobs * vpobs)).
+Inductive vstepc :=
+| VSt (ops : list vop) (counts : option (N * N)) (after : list (N * vpobs * vpobs))
+(* a step made while a CONTINUOUS replication runs (or its start): the operations, then what the session transfers.
+   A continuous replication is change driven: it offers a document in a direction only when that side's copy has been
+   written since the session last offered it (a revision it was refused is NOT offered again until the sender's copy
+   changes -- the checkpoint has moved past it).  [fresh]: the session is new (no checkpoint: everything is offered);
+   [both]: push-and-pull, otherwise pull only; [docs]: the documents in play. *)
+| VStS (ops : list vop) (fresh both : bool) (docs : list N) (after : list (N * vpobs * vpobs)).
+
+(* per document: (the active copy, the passive copy) was written since the session last offered it *)
+Definition dirty := N -> bool * bool.
+Definition dirty0 : dirty := fun _ => (false, false).
+Definition all_dirty : dirty := fun _ => (true, true).
+Definition set_dirty (dm : dirty) (d : N) (act : bool) (v : bool) : dirty :=
+  fun x => if x =? d then (if act then (v, snd (dm d)) else (fst (dm d), v)) else dm x.
 
 Definition vstored (st : vstatus) : bool :=
   match st with VApplied | VRemoteWins | VLocalWins => true | _ => false end.
@@ -55,18 +72,55 @@ Fixpoint vrun_count (s : vsys) (ops : list vop) : vsys * N * N :=
       (s', (if vstored st then a + 1 else a), (if vstatus_eqb st VConflict then c + 1 else c))
   end.
 
+(* which copy an operation writes (None: nothing written) *)
+Definition vop_writes (s : vsys) (o : vop) : list (N * bool) :=
+  let st := fstatus_of s o in
+  match o with
+  | VEdit p d _ _ | VDelete p d _ => [(d, match p with VA => true | VB => false end)]
+  | VPull d => if vstored st then [(d, true)] else []
+  | VPush d => if vstored st then [(d, false)] else []
+  | VPullRetry d _ _ => [(d, true)]
+  end.
+
+Fixpoint vrun_dirty (s : vsys) (dm : dirty) (ops : list vop) : vsys * dirty :=
+  match ops with
+  | [] => (s, dm)
+  | o :: r => vrun_dirty (fstep s o) (fold_left (fun m e => set_dirty m (fst e) (snd e) true) (vop_writes s o) dm) r
+  end.
+
+(* one pass of the session over the documents: pull what changed on the passive side, push what changed on the active *)
+Fixpoint vsess_pass (both : bool) (docs : list N) (s : vsys) (dm : dirty) : vsys * dirty :=
+  match docs with
+  | [] => (s, dm)
+  | d :: r =>
+      let '(s1, dm1) := if snd (dm d) then vrun_dirty s (set_dirty dm d false false) [VPull d] else (s, dm) in
+      let '(s2, dm2) := if both && fst (dm1 d) then vrun_dirty s1 (set_dirty dm1 d true false) [VPush d] else (s1, dm1) in
+      vsess_pass both r s2 dm2
+  end.
+Fixpoint vsession (fuel : nat) (both : bool) (docs : list N) (s : vsys) (dm : dirty) : vsys * dirty :=
+  match fuel with
+  | O => (s, dm)
+  | S k => let '(s1, dm1) := vsess_pass both docs s dm in vsession k both docs s1 dm1
+  end.
+
 Definition vobs_ok (s : vsys) (l : list (N * vpobs * vpobs)) : bool :=
   forallb (fun e => let '(d, oa, op) := e in
                     vpobs_eqb (vpobs_of (vdoc_of s VA d)) oa && vpobs_eqb (vpobs_of (vdoc_of s VB d)) op) l.
 
-Fixpoint vcheck_steps (s : vsys) (steps : list vstepc) : bool :=
+Fixpoint vcheck_steps_d (s : vsys) (dm : dirty) (steps : list vstepc) : bool :=
   match steps with
   | [] => true
   | VSt ops counts after :: r =>
       let '(s', a, c) := vrun_count s ops in
+      let dm' := snd (vrun_dirty s dm ops) in
       let cnt_ok := match counts with Some (a', c') => (a =? a') && (c =? c') | None => true end in
-      cnt_ok && vobs_ok s' after && vcheck_steps s' r
+      cnt_ok && vobs_ok s' after && vcheck_steps_d s' dm' r
+  | VStS ops fresh both docs after :: r =>
+      let '(s1, dm1) := vrun_dirty s dm ops in
+      let '(s2, dm2) := vsession 6 both docs s1 (if fresh then all_dirty else dm1) in
+      vobs_ok s2 after && vcheck_steps_d s2 dm2 r
   end.
+Definition vcheck_steps (s : vsys) (steps : list vstepc) : bool := vcheck_steps_d s dirty0 steps.
 
 (* ---- version-vector scenarios with custom resolvers and more than two peers: the model of VVG.v ---- *)
 (* what the harness writes down: a pull of peer [me] from peer [from] with the resolver r, a push of [me] to [to] *)
@@ -135,14 +189,49 @@ Definition obs_ok (s : sys) (l : list (N * pobs * pobs)) : bool :=
   forallb (fun e => let '(d, oa, op) := e in
                     pobs_eqb (pobs_of (fst (s d))) oa && pobs_eqb (pobs_of (snd (s d))) op) l.
 
-Fixpoint check_steps (mk : option revid -> body -> list N) (s : sys) (steps : list stepc) : option sys :=
+Definition op_writes (mk : option revid -> body -> list N) (s : sys) (o : op) : list (N * bool) :=
+  let ap := tstatus_eqb (step_status mk s o) TApplied in
+  match o with
+  | Edit sd d _ | Delete sd d | Resurrect sd d _ => [(d, match sd with Act => true | Pas => false end)]
+  | Push d => if ap then [(d, false)] else []
+  | Pull d | PullP _ d => if ap then [(d, true)] else []
+  end.
+
+Fixpoint run_dirty (mk : option revid -> body -> list N) (s : sys) (dm : dirty) (ops : list op) : sys * dirty :=
+  match ops with
+  | [] => (s, dm)
+  | o :: r => run_dirty mk (step mk s o) (fold_left (fun m e => set_dirty m (fst e) (snd e) true) (op_writes mk s o) dm) r
+  end.
+
+Fixpoint sess_pass (mk : option revid -> body -> list N) (both : bool) (docs : list N) (s : sys) (dm : dirty) : sys * dirty :=
+  match docs with
+  | [] => (s, dm)
+  | d :: r =>
+      let '(s1, dm1) := if snd (dm d) then run_dirty mk s (set_dirty dm d false false) [Pull d] else (s, dm) in
+      let '(s2, dm2) := if both && fst (dm1 d) then run_dirty mk s1 (set_dirty dm1 d true false) [Push d] else (s1, dm1) in
+      sess_pass mk both r s2 dm2
+  end.
+Fixpoint session (fuel : nat) (mk : option revid -> body -> list N) (both : bool) (docs : list N) (s : sys) (dm : dirty) : sys * dirty :=
+  match fuel with
+  | O => (s, dm)
+  | S k => let '(s1, dm1) := sess_pass mk both docs s dm in session k mk both docs s1 dm1
+  end.
+
+Fixpoint check_steps_d (mk : option revid -> body -> list N) (s : sys) (dm : dirty) (steps : list stepc) : option sys :=
   match steps with
   | [] => Some s
   | St ops counts after :: r =>
       let '(s', a, c) := run_count mk s ops in
+      let dm' := snd (run_dirty mk s dm ops) in
       let cnt_ok := match counts with Some (a', c') => (a =? a') && (c =? c') | None => true end in
-      if cnt_ok && obs_ok s' after then check_steps mk s' r else None
+      if cnt_ok && obs_ok s' after then check_steps_d mk s' dm' r else None
+  | StS ops fresh both docs after :: r =>
+      let '(s1, dm1) := run_dirty mk s dm ops in
+      let '(s2, dm2) := session 6 mk both docs s1 (if fresh then all_dirty else dm1) in
+      if obs_ok s2 after then check_steps_d mk s2 dm2 r else None
   end.
+Definition check_steps (mk : option revid -> body -> list N) (s : sys) (steps : list stepc) : option sys :=
+  check_steps_d mk s dirty0 steps.
 
 Definition check (c : case) : bool :=
   match c with
